@@ -50,8 +50,8 @@ from jpsim.threads import ThreadSched
 
 PROPERTY = "C09"
 BUDGET = {
-    "quick": {"iter": 16000, "iter_faultfree": 8000, "tasks": 6000, "threads": 2400},
-    "thorough": {"iter": 400000, "iter_faultfree": 150000, "tasks": 150000, "threads": 80000},
+    "quick": {"iter": 12000, "iter_faultfree": 6000, "tasks": 6000, "threads": 10000},
+    "thorough": {"iter": 400000, "iter_faultfree": 150000, "tasks": 150000, "threads": 200000},
 }
 FAULT_KINDS = ["abandon", "cancel", "storeerr", "gc", "repurge", "preempt", "delay"]
 TIME_UNIT = "virtual seconds (tasks configuration only); logical steps = iterator steps / loop iterations / traced source lines"
@@ -113,6 +113,10 @@ def generate(seed: int, config: str, tier: str) -> Dict[str, Any]:
     kind = {"iter": "iter", "iter_faultfree": "iter", "tasks": "tasks", "threads": "threads"}[config]
     prof = gen_json.profile(rng)
     prof["max_children"] = min(prof["max_children"], 3)
+    regex_heavy = rng.random() < (0.35 if kind == "threads" else 0.1)
+    if regex_heavy:
+        prof["stringy"] = True  # strings for the patterns to work on
+        prof["max_children"] = 3
     base = gen_json.gen_document(rng, prof)
     while gen_json.count_nodes(base) > 25:
         base = gen_json.gen_document(rng, prof)
@@ -142,6 +146,10 @@ def generate(seed: int, config: str, tier: str) -> Dict[str, Any]:
         opts["p_ext"] = max(opts["p_ext"], 0.15)
     if faulty and frng.random() < 0.3:
         opts["p_trip"] = 0.2  # some filters die half-way with the one error family a filter may raise
+    opts["p_flat"] = 0.25
+    if regex_heavy:
+        opts["p_regex_fn"] = 0.5  # regex-heavy: the function-extension instances are shared by every evaluation
+        opts["p_flat"] = 0.6
     queries: List[str] = []
     for _ in range(rng.randint(2, 6)):
         d = rng.choice(docs)
